@@ -348,6 +348,17 @@ class AbiView:
 # ------------------------------------------------------------------------------------------------
 # Trace validation with continue-after-rejection (Trace_AbiCodec / Trace_DataSection)
 # ------------------------------------------------------------------------------------------------
+def parse_unmatched(out, nints):
+    """<<"FIRST-UNMATCHED", int{nints}, {set of strings}, "json string">> -- TLC may wrap the tuple over lines"""
+    pat = r'<<\s*"FIRST-UNMATCHED",\s*' + r"".join(r"(\d+),\s*" for _ in range(nints)) + r'(\{[^}]*\}),\s*"(.*?)"\s*>>'
+    m = re.search(pat, out, re.S)
+    if not m:
+        return None
+    failed = re.sub(r"\s+", "", m.group(nints + 1))
+    return {"ints": [int(m.group(i + 1)) for i in range(nints)], "failed": failed,
+            "expected": m.group(nints + 2).replace('\\"', '"')}
+
+
 def validate_trace(ctx, module, cfg, records, name, shard=1500, par=4, timeout=3600):
     """Run the trace spec over `records` in shards; after a rejection, note it and continue with the rest.
     Returns (validated_count, rejections) with rejections = [{"rec": record, "failed": str, "expected": str}]."""
@@ -367,12 +378,12 @@ def validate_trace(ctx, module, cfg, records, name, shard=1500, par=4, timeout=3
             if tr.violated is None:
                 ok += len(recs)
                 break
-            m = re.search(r'<<"FIRST-UNMATCHED", (\d+), (\{[^}]*\}), "(.*)">>', tr.out)
+            m = parse_unmatched(tr.out, 1)
             if tr.violated != "postcondition" or not m:
                 raise ToolError("%s failed unexpectedly (%s); see work/%s/tlc-%s-%d-%d.out" % (module, tr.violated, ctx.pid, name, idx, rnd))
-            k = int(m.group(1))
+            k = m["ints"][0]
             ok += k - 1
-            rej.append({"rec": recs[k - 1], "failed": m.group(2), "expected": m.group(3).replace('\\"', '"')})
+            rej.append({"rec": recs[k - 1], "failed": m["failed"], "expected": m["expected"]})
             recs = recs[k:]
         return ok, rej
 
@@ -380,3 +391,261 @@ def validate_trace(ctx, module, cfg, records, name, shard=1500, par=4, timeout=3
     with ThreadPoolExecutor(max_workers=par) as ex:
         res = list(ex.map(one, shards))
     return sum(r[0] for r in res), [x for r in res for x in r[1]]
+
+
+# ------------------------------------------------------------------------------------------------
+# C13: scripts with configurables
+# ------------------------------------------------------------------------------------------------
+def const_expr(decls, t, v):
+    """A constant expression (no statements) for a value of a static type."""
+    k = t["k"]
+    if k in WORD or k in ("bool", "unit", "strarr"):
+        return Body(decls).expr(t, v)
+    if k == "tuple":
+        es = [const_expr(decls, a, b) for a, b in zip(t["es"], v["es"])]
+        return "(%s,)" % es[0] if len(es) == 1 else "(" + ", ".join(es) + ")"
+    if k == "struct":
+        es = [const_expr(decls, a, b) for a, b in zip(t["es"], v["es"])]
+        return "%s { %s }" % (decls.ty(t), ", ".join("f%d: %s" % (i, e) for i, e in enumerate(es)))
+    if k == "array":
+        return "[" + ", ".join(const_expr(decls, t["es"][0], e) for e in v["es"]) + "]"
+    if k in ENUMLIKE:
+        vt = variants(t)[v["tag"]]
+        if k == "enum":
+            head = "%s::V%d" % (decls.ty(t), v["tag"])
+        elif k == "option":
+            head = "Option::None" if v["tag"] == 0 else "Option::Some"
+        else:
+            head = "Result::Ok" if v["tag"] == 0 else "Result::Err"
+        if (k == "enum" and vt["k"] == "unit") or (k == "option" and v["tag"] == 0):
+            return head
+        return "%s(%s)" % (head, const_expr(decls, vt, v["v"]))
+    raise ValueError("not a configurable type: %s" % k)
+
+
+def config_script(cfgs):
+    """script with `configurable { name: T = dflt, .. }` whose main logs every configurable in declaration order"""
+    d = Decls()
+    lines = ["    %s: %s = %s," % (c["name"], d.ty(c["t"]), const_expr(d, c["t"], c["dflt"])) for c in cfgs]
+    logs = "\n".join("    log(%s);" % c["name"] for c in cfgs)
+    block = ("configurable {\n" + "\n".join(lines) + "\n}\n") if cfgs else ""
+    return PRELUDE + "\n" + d.render() + "\n\n" + block + "\nfn main() {\n" + logs + "\n}\n"
+
+
+def ret_script(t, v):
+    """script whose main returns v (C09: ReturnData)"""
+    d = Decls()
+    b = Body(d)
+    e = b.expr(t, v)
+    ty = d.ty(t)
+    body = "\n    ".join(b.ss + ["let v: %s = %s;" % (ty, e), "v"])
+    return PRELUDE + "\n" + d.render() + "\n\nfn main() -> %s {\n    %s\n}\n" % (ty, body)
+
+
+def run_config_packages(ctx, pkgs, procs=6, timeout=3600):
+    """vh-config over pkgs in parallel processes -> {id: {"built": ev, "runs": {rid: ev}}}"""
+    import os
+    from concurrent.futures import ThreadPoolExecutor
+    from lib.common import write_ndjson, read_ndjson, ToolError
+    ctx.build_vh("vh-config")
+    procs = max(1, min(procs, len(pkgs)))
+    shards = [pkgs[i::procs] for i in range(procs)]
+
+    def one(arg):
+        i, sh = arg
+        inp = os.path.join(ctx.work, "config-%d.in.ndjson" % i)
+        outp = os.path.join(ctx.work, "config-%d.out.ndjson" % i)
+        write_ndjson(inp, sh)
+        p = ctx.vh("vh-config", ["--in", inp, "--out", outp, "--work", os.path.join(ctx.work, "cpk-%d" % i)], check=False, timeout=timeout)
+        evs = read_ndjson(outp) if os.path.exists(outp) else []
+        if p.returncode != 0:
+            started = [e["id"] for e in evs if e["ev"] == "Start"]
+            raise ToolError("vh-config crashed (rc=%d) after starting %s:\n%s" % (p.returncode, started[-1:] or "nothing", p.stderr[-2000:]))
+        os.remove(inp)
+        return evs
+
+    with ThreadPoolExecutor(max_workers=procs) as ex:
+        res = list(ex.map(one, enumerate(shards)))
+    out = {p["id"]: {"built": None, "runs": {}} for p in pkgs}
+    for evs in res:
+        for e in evs:
+            if e["ev"] == "Built":
+                out[e["id"]]["built"] = e
+            elif e["ev"] == "Run":
+                out[e["id"]]["runs"][e["rid"]] = e
+    return out
+
+
+def observe_run(ev):
+    """Project a vh-config Run event: logs (LogData payloads), out, code, ret"""
+    logs = [r["data"] for r in ev.get("receipts", []) if r["t"] == "logdata"]
+    st = ev.get("state") or {}
+    if ev.get("panic") or ev.get("err"):
+        return {"logs": logs, "out": "vmerror", "code": [], "ret": []}
+    if st.get("k") == "revert":
+        return {"logs": logs, "out": "revert", "code": st["v"], "ret": []}
+    return {"logs": logs, "out": "return", "code": [], "ret": ev.get("returndata") or []}
+
+
+# ------------------------------------------------------------------------------------------------
+# C09 / C10: conformance pool, packages, observations
+# ------------------------------------------------------------------------------------------------
+import hashlib, os
+
+MISSING_ABI = {"k": "missing", "n": 0, "name": "", "es": [], "ns": [], "targs": []}
+
+
+def _order(recs):
+    return sorted(recs, key=lambda r: hashlib.sha256(tkey(r["t"]).encode()).digest())
+
+
+def gen_pool(ctx, sample_d2=220, sample_d3=110, tlc_seed=9):
+    """Replay records (one per type tree) from MC_AbiCodec under Gen_AbiCodec.cfg.
+    thorough: 4 slices of the depth<=1 trees in parallel TLC runs (+ named nestings + fixed-seed deeper samples);
+    quick: slice VERIF_SEED mod 16 + named nestings."""
+    from concurrent.futures import ThreadPoolExecutor
+    from lib.common import ToolError
+    if ctx.quick:
+        jobs = [dict(Part=ctx.seed % 16, NParts=16, SampleD2=0, SampleD3=0, WithNamed="TRUE")]
+    else:
+        jobs = [dict(Part=0, NParts=4, SampleD2=sample_d2, SampleD3=0, WithNamed="TRUE"),
+                dict(Part=1, NParts=4, SampleD2=0, SampleD3=sample_d3, WithNamed="FALSE"),
+                dict(Part=2, NParts=4, SampleD2=0, SampleD3=0, WithNamed="FALSE"),
+                dict(Part=3, NParts=4, SampleD2=0, SampleD3=0, WithNamed="FALSE")]
+
+    def one(arg):
+        i, j = arg
+        cfg = os.path.join(ctx.work, "Gen_AbiCodec_%d.cfg" % i)
+        with open(cfg, "w") as f:
+            f.write('CONSTANTS Universe = "pool" SampleD2 = %(SampleD2)d SampleD3 = %(SampleD3)d Part = %(Part)d '
+                    'NParts = %(NParts)d WithNamed = %(WithNamed)s\nSPECIFICATION Spec\nINVARIANT PrintReplay\nCHECK_DEADLOCK FALSE\n' % j)
+        r = ctx.tlc("MC_AbiCodec", cfg, workers=1, tlc_seed=tlc_seed, count=False, xss="64m", xmx="3g",
+                    name="gen-pool-%d" % i, timeout=2400)
+        recs = r.printed("REPLAY")
+        if r.violated or len(recs) != r.distinct:
+            raise ToolError("pool generation: %d records for %d states (%s)" % (len(recs), r.distinct, r.violated))
+        return recs
+
+    with ThreadPoolExecutor(max_workers=4) as ex:
+        parts = list(ex.map(one, enumerate(jobs)))
+    seen, out = set(), []
+    for recs in parts:
+        for r in recs:
+            k = tkey(r["t"])
+            if k not in seen:
+                seen.add(k)
+                out.append(r)
+    return _order(out)
+
+
+def pick_invalid(r, nbool=2, ntag=2, ntrunc=1):
+    """A deterministic few of the spec's invalid byte strings per type."""
+    out = []
+    for kind, n in (("bool", nbool), ("tag", ntag), ("truncated", ntrunc)):
+        xs = sorted([iv for iv in r["invalid"] if iv["kind"] == kind], key=lambda iv: (iv["len"], iv["bytes"]))
+        if kind == "truncated":
+            xs = [iv for iv in xs if iv["len"] > 0] or xs       # prefer a non-empty proper prefix
+            xs = xs[-n:]
+        else:
+            xs = xs[:: max(1, len(xs) // n)][:n] if xs else []
+        out += xs
+    return out
+
+
+def c09_packages(recs, prefix, per_pkg=40):
+    """Case tests: every representative value of every type."""
+    pkgs = []
+    for p in range(0, len(recs), per_pkg):
+        chunk = recs[p:p + per_pkg]
+        d, tests, items = Decls(), [], []
+        for ti, r in enumerate(chunk):
+            for vi, rep in enumerate(r["reps"]):
+                name = "c%d_%d" % (ti, vi)
+                tests.append(case_test(d, name, r["t"], rep["v"], rep["enc"], r["cls"]["size"]))
+                items.append({"ev": "Case", "test": name, "t": r["t"], "v": rep["v"],
+                              "memdump": has_memdump(r["t"], r["cls"]["size"])})
+        pkgs.append({"id": "%s%03d" % (prefix, p // per_pkg), "src": package(d, tests), "items": items})
+    return pkgs
+
+
+def c10_packages(recs, prefix, per_pkg=60, class_group=6):
+    """Class probes (several types per test), invalid decodes, and Case tests of the trivially en/decodable types."""
+    pkgs = []
+    for p in range(0, len(recs), per_pkg):
+        chunk = recs[p:p + per_pkg]
+        d, tests, items = Decls(), [], []
+        for g in range(0, len(chunk), class_group):
+            grp = chunk[g:g + class_group]
+            name = "k%d" % g
+            body = "".join(class_test(d, "x", r["t"]).split("{\n", 1)[1].rsplit("}\n", 1)[0] for r in grp)
+            tests.append("#[test]\nfn %s() {\n%s}\n" % (name, body))
+            items.append({"ev": "ClassGroup", "test": name, "ts": [r["t"] for r in grp]})
+        for ti, r in enumerate(chunk):
+            for j, iv in enumerate(pick_invalid(r)):
+                name = "i%d_%d" % (ti, j)
+                tests.append(invalid_test(d, name, r["t"], iv["bytes"], iv["len"]))
+                items.append({"ev": "Invalid", "test": name, "kind": iv["kind"], "t": r["t"], "bytes": iv["bytes"], "len": iv["len"]})
+            if r["cls"]["te"] or r["cls"]["td"]:
+                for vi, rep in enumerate(r["reps"]):
+                    name = "c%d_%d" % (ti, vi)
+                    tests.append(case_test(d, name, r["t"], rep["v"], rep["enc"], r["cls"]["size"]))
+                    items.append({"ev": "Case", "test": name, "t": r["t"], "v": rep["v"],
+                                  "memdump": has_memdump(r["t"], r["cls"]["size"])})
+        pkgs.append({"id": "%s%03d" % (prefix, p // per_pkg), "src": package(d, tests), "items": items})
+    return pkgs
+
+
+def run_and_collect(ctx, pkgs, procs=8, profile="debug"):
+    """Build + run the packages (vh-exec); returns (trace records, failures).
+    failures: [{"pkg", "kind": build|crash|timeout|panic|run|missing, "detail", "source"?}]"""
+    from lib.swayexec import run_packages, observe
+    jobs = [{"id": p["id"], "files": {"src/main.sw": p["src"]}, "profile": profile, "want": ["abi", "diag"]} for p in pkgs]
+    res = run_packages(ctx, jobs, procs=procs)
+    trace, failures = [], []
+    for p in pkgs:
+        r = res[p["id"]]
+        b = r["built"]
+        if r["crashed"] or b is None:
+            failures.append({"pkg": p["id"], "kind": "crash", "detail": ((r["crashed"] or {}).get("stderr") or "no Built event")[-800:]})
+            continue
+        if not b["ok"]:
+            kind = "timeout" if b.get("timeout") else ("panic" if b.get("panic") else "build")
+            errs = [x.strip()[-700:] for x in (b.get("diag") or "").split("____") if x.strip().startswith("error")]
+            failures.append({"pkg": p["id"], "kind": kind, "detail": (b.get("panic") or b.get("err") or "") + " | ".join(errs[:2])})
+            continue
+        if r["runfailed"]:
+            failures.append({"pkg": p["id"], "kind": "run", "detail": json.dumps(r["runfailed"])[-800:]})
+            continue
+        view = AbiView(b["pkgs"][0]["abi"])
+        tests = {t["test"]: t for t in r["tests"]}
+        for it in p["items"]:
+            te = tests.get(it["test"])
+            if te is None:
+                failures.append({"pkg": p["id"], "kind": "missing", "detail": "test %s produced no result" % it["test"]})
+                continue
+            o = observe(te)
+            rid = "%s/%s" % (p["id"], it["test"])
+            if it["ev"] == "ClassGroup":
+                for gi, t in enumerate(it["ts"]):
+                    trace.append({"ev": "Class", "id": "%s#%d" % (rid, gi), "t": t, "logs": o["logs"][4 * gi:4 * gi + 4], "out": o["out"]})
+            elif it["ev"] == "Case":
+                lg = [x for x in te["receipts"] if x["t"] == "logdata"]
+                a = view.term_of_log(lg[0]["rb"]) if lg else None
+                trace.append({"ev": "Case", "id": rid, "t": it["t"], "v": it["v"], "abi": a or MISSING_ABI,
+                              "memdump": it["memdump"], "logs": o["logs"], "out": o["out"]})
+            else:
+                trace.append({"ev": "Invalid", "id": rid, "kind": it["kind"], "t": it["t"], "bytes": it["bytes"], "len": it["len"],
+                              "logs": o["logs"], "out": o["out"]})
+    return trace, failures
+
+
+def short_type(t):
+    """Compact rendering of a type term (for keys and messages)."""
+    k = t["k"]
+    if k == "strarr":
+        return "str[%d]" % t["n"]
+    if k == "array":
+        return "[%s;%d]" % (short_type(t["es"][0]), t["n"])
+    if t["es"] or k in ("tuple", "struct", "enum"):
+        return "%s(%s)" % (k, ",".join(short_type(e) for e in t["es"]))
+    return k
